@@ -41,10 +41,10 @@ func ghsToPerSecond(m int64) float64 { return float64(m) * 1953125 / 8388608 }
 
 type c10Chk struct {
 	now, vstart, fstart, sto, flat int64
-	end, last                     int64 // -1 = none
-	fin                           bool
-	target, actual                int64
-	thrNum, thrDen                int64
+	end, last                      int64 // -1 = none
+	fin                            bool
+	target, actual                 int64
+	thrNum, thrDen                 int64
 }
 
 func (c c10Chk) op() string {
